@@ -227,6 +227,10 @@ func (x *exec) run() {
 	}
 	for _, fv := range fn.FreeVars {
 		v := x.freshInput(st, fv.Name(), fv.Type())
+		if l, isLoc := v.(*Loc); isLoc {
+			// a variable captured by reference: its address is never nil
+			st.assume(smt.Neq(l.Ref, smt.IntLit(0)), "captured variable "+fv.Name()+" has an address")
+		}
 		st.vals.m[fv] = v
 		st.vars[fv.Name()] = tval{v, fv.Type()}
 		ev := x.evalAt(st, nil)
@@ -333,7 +337,13 @@ func (x *exec) assumeAllocated(st *pstate, v *smt.Term, t types.Type) {
 		return
 	}
 	switch t.Underlying().(type) {
-	case *types.Pointer, *types.Map, *types.Chan:
+	case *types.Pointer:
+		st.assume(smt.ILt(v, next), "allocated")
+		// pointers to embedded objects are derived (negative) references: what is older than every
+		// later allocation is the object they are embedded in
+		x.p.D.AddFunc("rbase", smt.Int, smt.Int)
+		st.assume(smt.ILt(smt.App("rbase", smt.Int, v), next), "allocated (enclosing object)")
+	case *types.Map, *types.Chan:
 		st.assume(smt.ILt(v, next), "allocated")
 	case *types.Slice:
 		st.assume(smt.ILt(SlRef(v), next), "allocated")
@@ -532,6 +542,9 @@ func (x *exec) callWrites(w *writeSet, cc *ssa.CallCommon) {
 		return
 	}
 	callee := cc.StaticCallee()
+	if callee == nil && x.selfThroughCapture(cc.Value) {
+		callee = x.fn
+	}
 	if callee == nil {
 		w.all = true
 		return
